@@ -156,7 +156,7 @@ class System:
     def __init__(self, root):
         self.root = root
         self.kind = root["kind"]
-        F = root["F"] if "F" in root else len(root["values"])
+        F = root["F"] if "F" in root else len(root["values"] if "values" in root else root["rows"][0])
         self.freq = A.GRIDS[root["grid"]](F)
         self.menu_ops = [dict(op="U", rng=list(r), kw=k) for r in range_menu(self.freq)
                          for k in KWARGS]
@@ -174,6 +174,8 @@ class System:
             return [[off + sc * float(v) for v in row] for row in rows]
         if self.kind in ("curve", "diffuse"):
             self.curves = amp([root["values"]])
+        elif self.kind == "trad" and "rows" in root:
+            self.curves = amp(root["rows"])             # explicit windows (exhaustive small curves)
         elif self.kind == "trad":
             self.curves = amp(A.curve_set(root["shapes"], F))
         elif self.kind == "azi":
@@ -374,10 +376,14 @@ def roots(tier, seed):
             out.append(dict(kind="curve", grid="lin", grids=["lin", "same"], values=vals, depth=1))
         for vals in peaked[1::8]:
             out.append(dict(kind="diffuse", grid="lin", grids=["same", "lin"], values=vals, depth=1))
-        for s in (["p2", "twopk", "up"], ["p4", "p1", "plateau"]):
+        for s in (["p2", "twopk", "up"], ["p4", "p1", "plateau"], ["p3", "q3", "p4"]):
             out.append(dict(kind="trad", grid="lin", grids=["lin", "same"], F=7, shapes=s, depth=1))
             out.append(dict(kind="trad", grid="lin", grids=["same", "lin"], F=7, shapes=s, depth=1))
         out += _extra_roots(peaked[::16], [["p2", "twopk", "up"]], [["p4", "flat", "plateau"]])
+        # every small curve also as a WINDOW of a traditional result (three per object), long plateaus included
+        allc = A.all_curves(7, (1, 2, 3))
+        for k in range(0, len(allc) - 2, 27):
+            out.append(dict(kind="trad", grid="lin", rows=[allc[k], allc[(k * 7 + 5) % len(allc)], allc[-1 - k]], depth=1))
     else:
         for g in ("lin", "geo"):
             for vals in A.all_curves(7, (1, 2, 3)):
@@ -402,6 +408,9 @@ def roots(tier, seed):
         for a, b in itertools.product(trip, repeat=2):
             out.append(dict(kind="azi", grid="lin", F=7, depth=3, shapes_by_az=[a, b]))
         out += _extra_roots(peaked[::5], trip[:3], trip[:3])
+        allc = A.all_curves(7, (1, 2, 3))
+        for k in range(0, len(allc) - 2, 3):
+            out.append(dict(kind="trad", grid="lin", rows=allc[k:k + 3], depth=1))
     return out
 
 
@@ -445,7 +454,7 @@ def run_root(root, ctx, tier):
     sysm = System(root)
     explorer.bfs(sysm, root, root["depth"], ctx, key_prefix=f"C08:{root['kind']}",
                  check_determinism=False, touch=True)   # peaks are read after every range update
-    ctx.nontrivial_case(("root", root.get("values") or root.get("shapes") or root.get("shapes_by_az"),
+    ctx.nontrivial_case(("root", root.get("values") or root.get("shapes") or root.get("shapes_by_az") or root.get("rows"),
                          root["grid"], root["kind"]))
     if ctx.counters["roots"] % 400 == 0:
         ctx.sample(dict(root=root, ranges=[list(r) for r in range_menu(sysm.freq)][:4]))
